@@ -408,10 +408,10 @@ def gen_folding(loader, check, replay_on=True):
                     now = (a.fields["value_type"].fields["_signed"], a.fields["value_type"].fields["_bit_width"])
                     check.ob(f"{name}#operand-type-not-mutated", pi, p.ctx.pc, now == p.state["type0"], replay=rp,
                              detail=f"type of the operand literal changed in place from {p.state['type0']} to {now}")
-                    # the folded result is a node of its own: the operand literal (which other expressions may hold as well) keeps its value and name
-                    same = a.fields.get("value") is p.state["value0"] and a.fields.get("name") == p.state["name0"] and p.value is not a
+                    # the operand literal (which other expressions may hold as well) keeps its value and name (handing it back unchanged, as for +x, is fine)
+                    same = a.fields.get("value") is p.state["value0"] and a.fields.get("name") == p.state["name0"]
                     check.ob(f"{name}#operand-not-mutated", pi, p.ctx.pc, same, replay=R("c09.fold_frame", op=op, ta=list(ta)),
-                             detail=f"operand literal now named {a.fields.get('name')!r} with value {a.fields.get('value')!r}; result is the operand: {p.value is a}")
+                             detail=f"operand literal now named {a.fields.get('name')!r} with value {a.fields.get('value')!r}; result is the operand itself: {p.value is a}")
 
     # ---- constant condition of ?: -------------------------------------------------------------------------------
     for ta in LIT_TYPES:
@@ -657,7 +657,7 @@ def replay_fold_frame(a):
     before = (n.get_name(), n.get_val(), n.value_type.signed, n.value_type.bit_width)
     r = t.unary_expr([Token("UNARY_OP", a["op"]), n])
     after = (n.get_name(), n.get_val(), n.value_type.signed, n.value_type.bit_width)
-    return before != after or r is n, f"{a['op']}5:{tname(ta)}: operand literal before {before}, after {after}; the result is the operand itself: {r is n}"
+    return before != after, f"{a['op']}5:{tname(ta)}: operand literal before {before}, after {after}; the result is the operand itself: {r is n}"
 
 
 @replay.register("c09.fold")
